@@ -12,6 +12,7 @@ for d in seeded/C*-*/; do
   [ "$n" = "C09-4" ] && extra="C10"
   [ "$n" = "C09-6" ] && extra="C10"
   [ "$n" = "C06-7" ] && extra="C08"
+  [ "$n" = "C09-8" ] && extra="C16"
   [ "$n" = "C14-7" ] && extra="C09 C08"
   for chk in $id $extra; do
     r=$(MUT_LINES=1 MUT_TIMEOUT=${MUT_TIMEOUT:-1500} tools/mutcheck.sh $n $chk quick 2>&1)
